@@ -61,8 +61,11 @@ def encDefault (dflt : Bool) (o : EncOpt) : Bool :=
 inductive Kind where
   /-- service declaration (value = service UUID); `nAttrs` = number of attributes of the service -/
   | service (uuid : Bytes) (nAttrs : Nat)
-  /-- characteristic declaration; the properties byte and the value handle are computed -/
-  | charDecl (uuid : Bytes) (wwr owwr ntf ind : Bool)
+  /-- characteristic declaration; the properties byte and the value handle are computed.
+      `auto` = 0: the characteristic has an explicit `characteristic_uuid`; `auto` = k > 0: its UUID
+      is auto-generated, k = index of the characteristic within its service + 1 (`char_index` of
+      `fixup_auto_uuid`) and `uuid` holds `uuid::bytes` = the bytes of the *service's* 128 bit UUID -/
+  | charDecl (uuid : Bytes) (wwr owwr ntf ind : Bool) (auto : Nat)
   /-- `bind_characteristic_value<T,Ptr>`: `size = sizeof(T)`, has_read_access, has_write_access -/
   | bound (cell size : Nat) (readable writable : Bool)
   /-- `fixed_value<T,V>` -/
@@ -163,6 +166,24 @@ def declData (srv : Server) (idx : Nat) (uuid : Bytes) (wwr owwr ntf ind : Bool)
     | none => (false, false)
   UInt8.ofNat (charProps f.1 f.2 wwr owwr ntf ind) :: (le16 (idx + 2) ++ uuid)
 
+/-- `args.buffer[ i ] ^= x`; `none` = index `i` lies outside the buffer -/
+def xorAt? (b : Bytes) (i : Nat) (x : UInt8) : Option Bytes :=
+  match b[i]? with
+  | some y => some (b.set i (y ^^^ x))
+  | none => none
+
+/-- `fixup_auto_uuid` AS IT IS in the code: `buf` = the `bufSize` bytes of `args.buffer`,
+    `index_low = buffer_offset - 3`, `index_high = buffer_offset - 4` (sic: the position of the two
+    least significant UUID bytes in the buffer would be `3 - buffer_offset` / `4 - buffer_offset`),
+    each applied when `0 ≤ index < args.buffer_size`.
+    src: characteristic.hpp:generate_attribute<characteristic_declaration_parameter>::fixup_auto_uuid -/
+def fixupAutoUuid (buf : Bytes) (off bufSize charIndex : Nat) : Option Bytes :=
+  let step1 : Option Bytes :=
+    if 3 ≤ off ∧ off - 3 < bufSize then xorAt? buf (off - 3) (lo charIndex) else some buf
+  match step1 with
+  | none => none
+  | some b => if 4 ≤ off ∧ off - 4 < bufSize then xorAt? b (off - 4) (hi charIndex) else some b
+
 /-- flags of CCCD `pos` (src: client_characteristic_configuration::flags) -/
 def cccdFlags (c : Conn) (pos : Nat) : Option Nat := c.cccd[pos]?
 
@@ -175,9 +196,17 @@ def readAccess (H : Handlers) (srv : Server) (cells : List Bytes) (c : Conn) (id
   -- src: service.hpp:generate_attribute<service_defintion_tag>::access
   | .service uuid _ => readMem uuid uuid.length off bufSize
   -- src: characteristic.hpp:char_declaration_access + scattered_access.hpp
-  | .charDecl uuid wwr owwr ntf ind =>
+  --      (+ fixup_auto_uuid, called between the copy and the update of args.buffer_size; the bytes
+  --      of the buffer behind the copied ones are not part of the result: modelled as zeros)
+  | .charDecl uuid wwr owwr ntf ind auto =>
       let d := declData srv idx uuid wwr owwr ntf ind
-      readMem d d.length off bufSize
+      if auto = 0 then readMem d d.length off bufSize
+      else match readMem d d.length off bufSize with
+        | (.success, r) =>
+          match fixupAutoUuid (r ++ List.replicate (bufSize - r.length) 0) off bufSize auto with
+          | some b => (.success, b.take r.length)
+          | none => (.oob, [])
+        | x => x
   -- src: characteristic_value.hpp:bind_characteristic_value::value_impl::characteristic_value_access
   | .bound cell size readable _ =>
       match secCheck (requiresEnc srv.enc a) c with
@@ -230,7 +259,7 @@ def writeAccess (H : Handlers) (srv : Server) (cells : List Bytes) (c : Conn) (a
     (off : Nat) (v : Bytes) : Rc × List Bytes × List Nat :=
   match a.kind with
   | .service _ _ => (.err 0x03, cells, c.cccd)
-  | .charDecl _ _ _ _ _ => (.err 0x03, cells, c.cccd)
+  | .charDecl _ _ _ _ _ _ => (.err 0x03, cells, c.cccd)
   -- src: bind_characteristic_value::value_impl::characteristic_value_write_access
   | .bound cell size _ writable =>
       match secCheck (requiresEnc srv.enc a) c with
@@ -475,7 +504,7 @@ def infoLoop (srv : Server) (only16 : Bool) (tuple : Nat) (endIdx : Option Nat) 
           else
             -- write_128bit_uuid: the declaration in front of the value holds the UUID
             match srv.attrs[idx - 1]? with
-            | some ⟨_, .charDecl uuid _ _ _ _, _, _⟩ =>
+            | some ⟨_, .charDecl uuid _ _ _ _ _, _, _⟩ =>
               if uuid.length = 16 ∧ idx ≥ 1 then infoLoop srv only16 tuple endIdx room n (idx + 1) (acc ++ le16 (idx + 1) ++ uuid)
               else none
             | _ => none
@@ -684,7 +713,7 @@ def attrTableOk (srv : Server) (idx : Nat) (a : Attr) : Bool :=
   if a.uuid = 1 then
     decide (1 ≤ idx) &&
       (match srv.attrs[idx - 1]? with
-       | some ⟨_, .charDecl uuid _ _ _ _, _, _⟩ => decide (uuid.length = 16)
+       | some ⟨_, .charDecl uuid _ _ _ _ _, _, _⟩ => decide (uuid.length = 16)
        | _ => false)
   else true
 
